@@ -164,6 +164,16 @@ def run(ctx):
 REGIONS_ATTR = ['_capture_regions']
 
 
+def _table_owner(ctx, fn, methods):
+    """*fn* ('Class.method') is one of *methods* of FileInspector or of a
+    class FileInspector derives from (the table's owner)."""
+    parts = fn.split('.')
+    if len(parts) != 2 or parts[1] not in methods:
+        return False
+    base = ctx.world.cls(M.MOD, 'FileInspector')
+    return parts[0] in [c.name for c in base.mro()]
+
+
 def _writers(ctx):
     rep = ctx.report
     REGIONS_ATTR[0] = M.private_names(ctx.world)['regions']
@@ -206,10 +216,9 @@ def _writers(ctx):
                     if sub.attr == REGIONS_ATTR[0]:
                         n_regs += 1
                         rep.check('O5', 'store to the region table in %s'
-                                  % fn, fn in ('FileInspector.__init__',
-                                               'FileInspector.new_region',
-                                               'FileInspector.'
-                                               'delete_region') or None,
+                                  % fn, _table_owner(ctx, fn, (
+                                      '__init__', 'new_region',
+                                      'delete_region')) or None,
                                   'region table written in %s' % where,
                                   where=where)
             if isinstance(node, ast.Delete):
@@ -221,7 +230,8 @@ def _writers(ctx):
                             n_regs += 1
                             rep.check('O5', 'delete from the region table '
                                       'in %s' % fn,
-                                      fn == 'FileInspector.delete_region'
+                                      _table_owner(ctx, fn,
+                                                   ('delete_region',))
                                       or None,
                                       'region removed in %s' % fn)
     rep.count('stores to region data', n_data, floor=1)
